@@ -1,7 +1,7 @@
 """C01: whole-message integrity on every transport, under any segmentation.
 Spec: wire/Framing.tla.  Every behaviour is replayed with the library's reads and writes clamped to 1, 2, 3 and 7 bytes per
 system call and unclamped, with payload scales 1 and 1000 (messages of 0, 1, 3, 5 bytes and 0, 1000, 3000, 5000 bytes), in
-both directions (PULL socket receiving, PUSH socket sending), over tcp and ipc; every delivered payload is compared byte by
+both directions (PULL socket receiving, PUSH socket sending), over tcp, ipc and socket://, and (wire/Ws.tla) over ws:// in both roles; every delivered payload is compared byte by
 byte with its pattern, as is every frame the socket writes.  This check keeps the divergences in what was delivered."""
 from checks.wirelib import run_wire
 
@@ -11,6 +11,19 @@ def concerns(sig, text):
     return "got" in what or "frame" in what or "ok" in what or ":asan" in sig or ":ubsan" in sig or "alloc:balance" in sig or "rv" in what
 
 
+def concerns_ws(sig, text):
+    what = sig.rsplit(":", 1)[-1]
+    return ".ws." in sig or ".send" in sig or "got" in what or "watchdog" in sig or ":asan" in sig or ":ubsan" in sig or "alloc:balance" in sig
+
+
 def run(v, tier, rng):
     clamps = [(1, 1), (1, 2), (1, 3), (1, 7), (1, 0), (1000, 1), (1000, 7), (1000, 0)]
     run_wire(v, tier, concerns, [("Framing_sim.cfg", "pull", 4, clamps, 250), ("FramingOut_sim.cfg", "push", 4, clamps, 120)])
+    # the websocket transport (specification wire/Ws.tla, shared with C16): data frames, fragments and sends in both roles
+    from checks.c16 import run_ws
+    from checks.agg import Only
+    px = Only(v, concerns_ws, 1.0)
+    n = run_ws(px, tier, [("Ws_sim.cfg", "pull", 1, [3], 150), ("WsC_sim.cfg", "pulld", 1, [1, 0], 120), ("WsOut_sim.cfg", "push", 1, [1], 60),
+                          ("WsC1000_sim.cfg", "pulld", 1000, [3], 60)], mc=False)
+    v.cov["distinct_nontrivial"] = v.cov.get("distinct_nontrivial", 0) + n
+    v.cov["divergences_outside_this_property"] = v.cov.get("divergences_outside_this_property", 0) + px.other
